@@ -147,6 +147,7 @@ def cases(draw, tier):
     types1 = {n: (s_type if n == 'S' else draw(st.sampled_from(TYPES))) for n in NAMES1}
     types2 = {n: (s_type if n == 'S' else draw(st.sampled_from(TYPES))) for n in NAMES2}
     conflict = draw(st.integers(0, 11)) == 0
+    force_x1 = False
     terms1 = [t for t in TERMS if t[0] != 'X']
     terms2 = [('t1', []) if (conflict and t[0] == 't1') else t for t in TERMS]
     pairs = [(a, b) for a in NAMES1 for b in NAMES2 if types1[a] == types2[b]]
@@ -196,8 +197,17 @@ def cases(draw, tier):
     r2s += extra(NAMES2, types2, 2, c2, terms2)
     if conflict:
         # make the conflict genuine: both grammars actually use their (differently typed) terminal t1
-        for r in r2s[:1]:
-            r['terms'].append([f'g2t{c2[0]}', 't1', [], []]); c2[0] += 1
+        if draw(st.booleans()):
+            for r in r2s[:1]:
+                r['terms'].append([f'g2t{c2[0]}', 't1', [], []]); c2[0] += 1
+        else:
+            # the conflicting terminal of g2 sits in a rule whose skeleton exists only in g2 (it never reaches the conjoined
+            # grammar, so only the explicit collision check can report it), next to a harmless same-name pair: 'X' is a
+            # nonterminal of g1 and a terminal of g2
+            pool.append({'fam': 70, 'nodes': list(s_type) + ['B'], 'ext': list(range(len(s_type))), 'nts': []})
+            r2s.append({'skeleton': len(pool) - 1, 'lhs': 'S', 'nts': [],
+                        'terms': [[f'g2t{c2[0]}', 't1', [], []], [f'g2t{c2[0] + 1}', 'X', ['B'], [len(s_type)]]]}); c2[0] += 2
+            force_x1 = True
         for r in r1s:
             sk = pool[r['skeleton']]
             if 'A' in sk['nodes']:
@@ -208,7 +218,7 @@ def cases(draw, tier):
         r['order'] = list(draw(st.permutations(list(range(n))))) if n > 1 else list(range(n))
     r1s = list(draw(st.permutations(r1s))) if len(r1s) > 1 else r1s
     r2s = list(draw(st.permutations(r2s))) if len(r2s) > 1 else r2s
-    used1 = {'S'} | {r['lhs'] for r in r1s} | {e[2] for r in r1s for e in r['nts']} | {n for n in NAMES1 if draw(st.integers(0, 3)) == 0}
+    used1 = {'S'} | {r['lhs'] for r in r1s} | {e[2] for r in r1s for e in r['nts']} | {n for n in NAMES1 if draw(st.integers(0, 3)) == 0} | ({'X'} if force_x1 else set())
     used2 = {'S'} | {r['lhs'] for r in r2s} | {e[2] for r in r2s for e in r['nts']} | {n for n in NAMES2 if draw(st.integers(0, 3)) == 0}
     g1 = {'nts': {n: types1[n] for n in NAMES1 if n in used1}, 'rules': r1s}
     g2 = {'nts': {n: types2[n] for n in NAMES2 if n in used2}, 'rules': r2s}
@@ -287,7 +297,7 @@ def check(case, ctx):
     snap = lambda h: (str(h), [sig_actual(r) for r in h.all_rules()])
     before = (snap(h1), snap(h2))
     if conflict:
-        ctx.label('terminal-conflict')
+        ctx.label('terminal-conflict', 'conflict-outside-conjoined-rules' if any(sk['fam'] == 70 for sk in pool) else None)
         ctx.expect_raises('conjoin_hrgs(terminal conflict)', ValueError, fggs.conjoin_hrgs, h1, h2)
         ctx.require((snap(h1), snap(h2)) == before, 'arguments-modified', '')
         ctx.nontrivial = True
